@@ -3,6 +3,7 @@ package props
 import (
 	"fmt"
 	"math/rand"
+	"net/url"
 	"sort"
 	"strings"
 
@@ -416,10 +417,10 @@ func (p c16) agreement(unit int, rc Recipe, rep *runner.Reporter) {
 				for _, k := range e.Keys {
 					if k.Label {
 						if k.Index < len(b.LabelRanges) {
-							want = append(want, fmt.Sprintf("%s|%s|%s", fmtRange(b.LabelRanges[k.Index]), e.Dep.DocsLink.URL, e.Dep.DocsLink.Tooltip))
+							want = append(want, fmt.Sprintf("%s|%s|%s", fmtRange(b.LabelRanges[k.Index]), normURL(e.Dep.DocsLink.URL), e.Dep.DocsLink.Tooltip))
 						}
 					} else if a, ok := b.Body.Attributes[k.Name]; ok {
-						want = append(want, fmt.Sprintf("%s|%s|%s", fmtRange(a.Expr.Range()), e.Dep.DocsLink.URL, e.Dep.DocsLink.Tooltip))
+						want = append(want, fmt.Sprintf("%s|%s|%s", fmtRange(a.Expr.Range()), normURL(e.Dep.DocsLink.URL), e.Dep.DocsLink.Tooltip))
 					}
 				}
 			}
@@ -432,7 +433,7 @@ func (p c16) agreement(unit int, rc Recipe, rep *runner.Reporter) {
 					if i := strings.Index(uri, "?"); i >= 0 {
 						uri = uri[:i]
 					}
-					got = append(got, fmt.Sprintf("%s|%s|%s", fmtRange(l.Range), uri, l.Tooltip))
+					got = append(got, fmt.Sprintf("%s|%s|%s", fmtRange(l.Range), normURL(uri), l.Tooltip))
 				}
 				sort.Strings(got)
 				sort.Strings(want)
@@ -467,3 +468,12 @@ func (p c16) Extra(m *runner.Merged) map[string]interface{} {
 }
 
 func init() { Register(c16{}) }
+
+// normURL is the URI in its serialised form (non-ASCII bytes percent-encoded),
+// which is what a link carries.
+func normURL(s string) string {
+	if u, err := url.Parse(s); err == nil {
+		return u.String()
+	}
+	return s
+}
